@@ -78,6 +78,8 @@ def pat_repr(p):
         e = p["e"]
         if e.get("k") == "PEPath":
             r = e["res"]
+            if r.get("r") == "def" and str(r.get("dk", "")).startswith(("Const", "AssocConst")) and r.get("path") in CONST_VALUES:
+                return "lit:%r" % (CONST_VALUES[r["path"]],)      # a constant used as a pattern is the literal it holds
             return short_variant(norm(r.get("path", ""))) if r.get("r") == "def" else "?"
         if e.get("k") == "PELit":
             v = e["lit"].get("v")
